@@ -67,15 +67,12 @@ func RunSet(id string, opts GlobalOptions) error {
 			return err
 		}
 		agentID := opts.AgentID
-		if err := applySetUpdates(dir, opts, id, updates, agentID, opts.JSON); err != nil {
+		graph, err := applySetUpdates(dir, opts, id, updates, agentID, opts.JSON)
+		if err != nil {
 			return err
 		}
 
 		if opts.JSON {
-			graph, err := loadGraph(dir)
-			if err != nil {
-				return err
-			}
 			task := graph.Tasks[id]
 			if task == nil {
 				return fmt.Errorf("unknown task id %s", id)
@@ -136,15 +133,12 @@ func RunSet(id string, opts GlobalOptions) error {
 			return err
 		}
 		agentID := opts.AgentID
-		if err := applySetUpdates(dir, opts, id, updates, agentID, opts.JSON); err != nil {
+		graph, err := applySetUpdates(dir, opts, id, updates, agentID, opts.JSON)
+		if err != nil {
 			return err
 		}
 
 		if opts.JSON {
-			graph, err := loadGraph(dir)
-			if err != nil {
-				return err
-			}
 			task := graph.Tasks[id]
 			if task == nil {
 				return fmt.Errorf("unknown task id %s", id)
@@ -192,15 +186,12 @@ func RunSet(id string, opts GlobalOptions) error {
 	}
 
 	agentID := opts.AgentID
-	if err := applySetUpdates(dir, opts, id, updates, agentID, opts.JSON); err != nil {
+	graph, err := applySetUpdates(dir, opts, id, updates, agentID, opts.JSON)
+	if err != nil {
 		return err
 	}
 
 	if opts.JSON {
-		graph, err := loadGraph(dir)
-		if err != nil {
-			return err
-		}
 		task := graph.Tasks[id]
 		if task == nil {
 			return fmt.Errorf("unknown task id %s", id)
@@ -236,11 +227,7 @@ func RunClaim(id string, opts GlobalOptions) error {
 	if err != nil {
 		return err
 	}
-	if err := applySetUpdates(dir, opts, id, updates, agentID, true); err != nil {
-		return err
-	}
-
-	graph, err := loadGraph(dir)
+	graph, err := applySetUpdates(dir, opts, id, updates, agentID, true)
 	if err != nil {
 		return err
 	}
@@ -394,12 +381,17 @@ func buildUpdatedFields(input *TaskInput) []string {
 	return fields
 }
 
-func applySetUpdates(dir string, opts GlobalOptions, id string, updates map[string]string, agentID string, quiet bool) error {
+// applySetUpdates returns the graph as it is at the end of the lock section, so that
+// callers describe the state this command produced. Re-reading after the lock is
+// released would show whatever another writer made of it meanwhile, or fail when the
+// task has been pruned, although the update itself was committed.
+func applySetUpdates(dir string, opts GlobalOptions, id string, updates map[string]string, agentID string, quiet bool) (*Graph, error) {
 	lockPath := filepath.Join(dir, "lock")
 	eventsPath := getEventsPath(dir)
 	repoDir := filepath.Dir(dir)
 
-	return withLock(lockPath, syscall.LOCK_EX, func() error {
+	var after *Graph
+	err := withLock(lockPath, syscall.LOCK_EX, func() error {
 		graph, err := loadGraph(dir)
 		if err != nil {
 			return err
@@ -420,11 +412,15 @@ func applySetUpdates(dir string, opts GlobalOptions, id string, updates map[stri
 		if err := appendEvents(eventsPath, events); err != nil {
 			return err
 		}
+		if after, err = loadGraph(dir); err != nil {
+			return err
+		}
 		if !quiet {
 			fmt.Println(id)
 		}
 		return nil
 	})
+	return after, err
 }
 
 // buildUpdateEvents validates a whole set request (result attachment included)
